@@ -17,6 +17,9 @@ MODULES = ["Props.C17"]
 # arguments longer than any plausible fixed buffer (4096, 8192, 65536): their meaning must not depend on their length
 LONG_FORMULA = [b"C" * 5000, b"C" * 4095 + b"He", b"(" + b"CH" * 2100 + b")2", b"C" * 8191 + b"Cl2"]
 LONG_SPEC = [b"C[" + b"0" * 4200 + b"13]", b"C" + b"l" * 0 + b"[" + b"0" * 8190 + b"12]", b"C" * 4097]
+# pairs of DIFFERENT compositions with the same number of entries and bit-identical masses: an element and its most
+# abundant isotope fixed (H / H[1], C / C[12], O / O[16]); Bk and Cm (both tabulated at 247.0)
+TWINS = [(b"H2O", b"H[1]2O"), (b"C6H12O6", b"C[12]6H12O6"), (b"Bk3", b"Cm3"), (b"H2O", b"H2O[16]"), (b"BkO2", b"CmO2")]
 GOOD_FORMULA = [b"H2O", b"C6H12O6", b"C[13]2H5(OH)2", b"(CH2)3Cl[37]", b"Fe2O3", b"H+", b"C", b"NaCl", b"C2H6S1"]
 BAD_FORMULA = [b"", b"H)", b"Xx", b"C[14]", b"(", b"h2o", b"C[13", b"\xff\xfe", b"C\xc3", b"H2O\xe4\xb8\xad", b"()", b"C[]2", b" H", b"C2147483648"]
 GOOD_SPEC = [b"C", b"H", b"O", b"C[13]", b"Cl", b"Fe", b"Cl[37]", b"Fe[54]", b"e*", b"Uuh"]
@@ -39,7 +42,12 @@ def gen_sequences(r: Run):
         sp = b"C[" + b"0" * max(0, d - 5) + b"13]"
         dseqs.append(["parse " + hx(f1), "get 0 " + hx(b"He"), "get 0 " + hx(b"H"), "get 0 " + hx(b"C"), "parse " + hx(f2), "get 1 " + hx(b"C"),
                       "new", "set 2 " + hx(sp) + " 5", "get 2 " + hx(b"C[13]"), "get 2 " + hx(sp), "mass 2"])
-    seqs = dseqs + [
+    tseqs = []
+    for a, b in TWINS:
+        probes = [hx(x) for x in (b"H", b"H[1]", b"C", b"C[12]", b"O", b"O[16]", b"Bk", b"Cm")]
+        for op in ("sub", "add"):
+            tseqs.append(["parse " + hx(a), "parse " + hx(b), f"{op} 0 1"] + [f"get 0 {x}" for x in probes] + ["mass 0", f"{op} 1 0"] + [f"get 1 {x}" for x in probes])
+    seqs = dseqs + tseqs + [
         ["parse " + hx(LONG_FORMULA[0]), "mass 0", "parse " + hx(LONG_FORMULA[1]), "get 1 " + hx(b"He"), "get 1 " + hx(b"H"), "parse " + hx(LONG_FORMULA[2]),
          "new", "set 3 " + hx(LONG_SPEC[0]) + " 5", "get 3 " + hx(b"C[13]"), "get 3 " + hx(LONG_SPEC[0]), "inc 3 " + hx(LONG_SPEC[2]) + " 1"],
         ["new", "parse 4829", "set 0 435b785d 1", "get 0 c3a9", "free 0"],
